@@ -66,6 +66,7 @@ type FuncSpec struct {
 	Line     int
 	Lets     []*Clause // let name = expr (evaluated in pre-state)
 	Cases    []*Clause // case name: cond — the function is verified once per case, cond added to requires
+	Uses     []*Clause // use lemma(args): instantiate a proved lemma before the postconditions
 	Wits     []*Clause // witness name = expr (reported from counterexamples)
 	Replay   string
 }
@@ -88,6 +89,11 @@ type SpecFunc struct {
 }
 
 type Lemma struct {
+	Params   []string
+	Sorts    []string
+	IndVar   string
+	Requires []*Clause
+	Ensures  []*Clause
 	Name  string
 	Props []string
 	Expr  *Node
@@ -125,8 +131,8 @@ func newSpecDB0() *SpecDB {
 }
 
 var clauseKw = map[string]bool{"requires": true, "ensures": true, "modifies": true, "panics": true, "props": true,
-	"loop": true, "invariant": true, "pure": true, "stable": true, "assumed": true, "concurrent": true, "noinline": true, "unroll": true, "let": true, "decreases": true, "witness": true, "replay": true, "case": true}
-var topKw = map[string]bool{"func": true, "iface": true, "callback": true, "ghost": true, "spec": true, "lemma": true}
+	"loop": true, "invariant": true, "pure": true, "stable": true, "assumed": true, "concurrent": true, "noinline": true, "unroll": true, "let": true, "decreases": true, "witness": true, "replay": true, "case": true, "use": true}
+var topKw = map[string]bool{"ilemma": true, "func": true, "iface": true, "callback": true, "ghost": true, "spec": true, "lemma": true}
 
 func firstWord(s string) (string, string) {
 	s = strings.TrimSpace(s)
@@ -189,10 +195,71 @@ func (db *SpecDB) loadFile(path, pkgPath string) error {
 	}
 	var cur *FuncSpec
 	var curLoop *LoopSpec
+	var curLemma *Lemma
 	for _, it := range items {
 		w, rest := firstWord(it.text)
 		fail := func(msg string) error { return fmt.Errorf("%s:%d: %s: %s", path, it.line, msg, it.text) }
+		if w != "requires" && w != "ensures" {
+			curLemma = nil
+		}
+		if curLemma != nil {
+			label, _, body := parseLabel(rest)
+			e, err := parseExpr(body)
+			if err != nil {
+				return fail(err.Error())
+			}
+			c := &Clause{Kind: w, Label: label, Text: body, Expr: e, Line: it.line, File: path}
+			if w == "requires" {
+				curLemma.Requires = append(curLemma.Requires, c)
+			} else {
+				curLemma.Ensures = append(curLemma.Ensures, c)
+			}
+			continue
+		}
 		switch w {
+		case "ilemma":
+			// ilemma name {props} (a Sort, b Sort) induction i
+			r := strings.TrimSpace(rest)
+			lp := strings.Index(r, "(")
+			if lp < 0 {
+				return fail("ilemma NAME {props} (params) induction VAR")
+			}
+			head := r[:lp]
+			var props []string
+			if k := strings.Index(head, "{"); k >= 0 {
+				_, props, _ = parseLabel(head[k:])
+				head = head[:k]
+			}
+			depth, rp := 0, -1
+			for i := lp; i < len(r); i++ {
+				if r[i] == '(' {
+					depth++
+				} else if r[i] == ')' {
+					depth--
+					if depth == 0 {
+						rp = i
+						break
+					}
+				}
+			}
+			if rp < 0 {
+				return fail("unbalanced parameter list")
+			}
+			lm := &Lemma{Name: strings.TrimSpace(head), Props: props, Pkg: pkgPath, File: path, Line: it.line}
+			for _, p := range splitTop(r[lp+1 : rp]) {
+				f := strings.Fields(p)
+				if len(f) < 2 {
+					return fail("lemma parameter needs a sort")
+				}
+				lm.Params = append(lm.Params, f[0])
+				lm.Sorts = append(lm.Sorts, strings.Join(f[1:], " "))
+			}
+			tail := strings.Fields(r[rp+1:])
+			if len(tail) == 2 && tail[0] == "induction" {
+				lm.IndVar = tail[1]
+			}
+			db.Lemmas = append(db.Lemmas, lm)
+			cur, curLemma = nil, lm
 		case "func", "iface", "callback":
 			fs, err := parseHeader(strings.TrimSpace(rest), pkgPath, w == "iface")
 			if err == nil && w == "callback" {
@@ -297,6 +364,12 @@ func (db *SpecDB) loadFile(path, pkgPath string) error {
 				}
 			case "replay":
 				cur.Replay = strings.TrimSpace(rest)
+			case "use":
+				e, err := parseExpr(strings.TrimSpace(rest))
+				if err != nil || e.Op != "call" || e.Args[0].Op != "ident" {
+					return fail("use LEMMA(args)")
+				}
+				cur.Uses = append(cur.Uses, &Clause{Kind: "use", Label: e.Args[0].Name, Text: rest, Expr: e, Line: it.line, File: path})
 			case "case":
 				rest = strings.TrimSpace(rest)
 				j := strings.Index(rest, ":")
